@@ -15,7 +15,7 @@
      install HIGH                    -> ((pid eid lang) ...)           M_installcmap_keys
      lk4 ((k g) ...) (r ...)         -> (g ...)                       M_lookup4 (Format4.Lookup), r any integer
      getsub P E (r0 ... r255) x<bytes> -> err | panic | (bytes x..) | (map (k g) ...)
-                                        M_get_sub with macrune c = r[c mod 256]
+                                        M_get_sub2 (Table.Get as repaired) with macrune c = r[c mod 256]
 *)
 let sx_pairs (x : sx) : (n * n) list =
   List.map (fun p -> match p with L [k; g] -> (sx_n k, sx_n g) | _ -> failwith "bad pair") (lst x)
@@ -99,7 +99,7 @@ let () = main_loop (fun c ->
     let arr = Array.of_list (List.map sx_n (lst tbl)) in
     if Array.length arr <> 256 then failwith "bad rune table" else
     let macrune c = arr.((int_of_n c) land 255) in
-    (match m_get_sub macrune ((sx_n p, sx_n e), N0) (sx_bytes data) with
+    (match m_get_sub2 macrune ((sx_n p, sx_n e), N0) (sx_bytes data) with
      | Ok (SubBytes d) -> L [A "bytes"; A (hex_of_bytes d)]
      | Ok (SubMap m) -> L (A "map" :: pairs_sx m)
      | Err -> A "err"
